@@ -158,7 +158,18 @@ def run_case(case, w):
         p = w.procs[4321]
         p.stat["utime"], p.stat["stime"] = 100, 50
         w.mono = 1000.0
-        pr = psutil.Process(4321)
+        # the object is a plain Process, a psutil.Popen (over a stub subprocess) or an application's subclass, and the process
+        # name contains the stat record's own delimiters -- none of which changes how CPU time is measured
+        flavour = (len(seq) + ncpu + sum(int(x[1]) for x in seq)) % 3
+        p.comm = (b"plain", b"job (v2) worker", b"a) S 1 2 3 4")[flavour]
+        if flavour == 1:
+            from vf.checks.procmodel import mk_popen
+            pr = mk_popen(psutil, 4321)
+        elif flavour == 2:
+            from vf.checks.procmodel import _subclass
+            pr = _subclass(psutil)(4321)
+        else:
+            pr = psutil.Process(4321)
         prev = None
         for i, (kind, du, ds, dw) in enumerate(seq):
             if kind == "x":
